@@ -207,24 +207,42 @@ def perms2 : List Nat → List (List Nat)
   | l => [l]
 
 /-- thread end: the thread's thread-locals are destroyed (in any order), then it counts as
-finished (joinable); the main thread's end also ends the life of the lazy statics -/
+finished (joinable); the main thread's end also ends the life of the lazy statics.
+
+When the destructors perform a store (`tlsdtor=1`) they are separate steps that other threads can
+interleave with: `phase = 100 + mask` says which keys are still to be destroyed. -/
 def finish (p : Prog) (s : St) (t : Nat) : List St :=
   let live := ((s.th t).locals.map (·.1))
   let live := [0, 1].filter fun k => live.contains k
+  if p.cfg.tlsDtor == 1 then
+    let h := s.th t
+    if h.phase < 100 then
+      let s := if t == 0 then { s with lazyDropped := true } else s
+      if live.isEmpty then [s.modTh t fun h => { h with finished := true }]
+      else [s.modTh t fun h => { h with phase := 100 + live.foldl (fun m k => m + 2 ^ k) 0 }]
+    else
+      let m := h.phase - 100
+      ([0, 1].filter fun k => m / 2 ^ k % 2 == 1).map fun k =>
+        let s := (s.tick t)
+        let s := { s with tlsDrops := s.tlsDrops.set k (s.tlsDrops.getD k 0 + 1),
+                          atoms := s.atoms.set 0 (10 + k), atomRel := s.atomRel.set 0 VV.zero }
+        let m' := m - 2 ^ k
+        s.modTh t fun h => { h with phase := 100 + m', finished := m' == 0 }
+  else
   let s := if t == 0 then { s with lazyDropped := true } else s
   (perms2 live).map fun order =>
     let s := order.foldl (fun s k =>
       let s := { s with tlsDrops := s.tlsDrops.set k (s.tlsDrops.getD k 0 + 1) }
       match p.cfg.tlsDtor with
-      | 1 => { s with atoms := s.atoms.set 0 (10 + k), atomRel := s.atomRel.set 0 VV.zero }
       | 2 =>
         -- key 0's destructor touches key 1: destroyed (2) if this thread ever had it, else it is
         -- initialised on the spot (1)
         if k != 0 then s
-        else if live.contains 1 then { s with tlsObs := s.tlsObs.set 0 2 }
+        else if live.contains 1 then { s with tlsObs := s.tlsObs.set 0 (s.tlsObs.getD 0 0 ||| 2) }
         else
           let (s, _) := tlsGet s t 1
-          { s with tlsObs := s.tlsObs.set 0 1 }
+          -- (the value created here is destroyed before the thread ends, like any other)
+          { s with tlsObs := s.tlsObs.set 0 (s.tlsObs.getD 0 0 ||| 1), tlsDrops := s.tlsDrops.set 1 (s.tlsDrops.getD 1 0 + 1) }
       | _ => s) s
     s.modTh t fun h => { h with finished := true }
 
@@ -437,7 +455,10 @@ def step (p : Prog) (s : St) (t : Nat) : List St :=
     | .lazy z =>
       if s.lazyDropped then [s.stop (.misuse 20)] else
       -- first access initialises (once per execution) and publishes; every access acquires
+      -- (the DSL's initialiser counts its runs in atomic 0 with a relaxed `fetch_add` when one is declared)
       let s := if s.lazyInit.getD z 0 == 0 then
+          let s := if p.cfg.nAtomics == 0 then s else
+            { s with atoms := s.atoms.set 0 (Std.step p.cfg.ty (s.atoms.getD 0 0) (.fetch (.add 1) .rlx)).1 }
           { s with lazyInit := s.lazyInit.set z 1, lazyRel := s.lazyRel.set z (s.vc t) }
         else s
       let s := s.acquire t (s.lazyRel.getD z VV.zero)
